@@ -113,6 +113,10 @@ var c08Programs = []string{
 	"func f\n    return 1\nend\nfunc g:num\n    print 1\nend\nbreak\nreturn\nf 1 2\ny := g 1\n",
 	"print (typeof {a:1 b:\"s\"}) (typeof {a:[] b:{}}) (typeof [{a:1} {b:\"x\"} {}])\n",
 	"a:any\na = {p:1 q:[2] r:{s:3}}\nb := a.({}any)\nfor k := range b\n    print k b[k] (typeof b[k])\nend\n",
+	// literal typing with several map values: the verdict does not depend on which value type is looked at first
+	"x := [1]\nmm:{}[]any\nmm = {b:[2] a:x}\nprint mm\n",
+	"x := [1]\nd := {z:[2] b:x c:[\"s\"]}\ne := {z:[2] c:[3] b:x}\nprint (typeof d) (typeof e)\n",
+	"x := {k:1}\nd := {p:{} q:x r:{j:2}}\nprint (typeof d)\nf:{}{}any\nf = {p:{} r:{j:2} q:x}\n",
 	// every way a map value is duplicated keeps its insertion order: repetition, concatenation, slicing, assignment, any-wrapping, arguments, return values
 	"row := [{x:0 y:1 c:2}] * 2\nprint row\nrow[0].z = 5\nprint row (row + [{q:1 p:2}]) row[0:1]\n",
 	"cell := {x:0 y:0 color:\"red\" size:2}\nrow := [cell] * 3\nrow[1].x = 5\nprint row\nfor key := range row[2]\n    print key row[2][key]\nend\n",
@@ -200,6 +204,30 @@ func runC08(w *fw.Worker) {
 			in := c08Input{Src: b, Before: a}
 			w.Case("hist\x00"+a+"\x00"+b, func() *fw.Violation { w.Nontrivial(); w.Count("histories", 1); return checkC08(w, in) })
 		}
+	}
+	// seeded random numbers: any seed other than 0 fixes the sequence
+	for _, seed := range []string{"1", "7", "-7", "-1", "9223372036854775807", "-9223372036854775808"} {
+		seed := seed
+		w.Case("seed\x00"+seed, func() *fw.Violation {
+			w.Nontrivial()
+			w.Count("seeded-runs", 1)
+			src := "for range 5\n    print (rand 1000000) (rand1)\nend\n"
+			o1, e1, c1, err := runEvy([]string{"run", "--rand-seed=" + seed}, src, "")
+			if err != nil {
+				panic(err)
+			}
+			if c1 != 0 {
+				return nil // the flag does not take this value
+			}
+			for k := 0; k < 3; k++ {
+				o2, e2, c2, _ := runEvy([]string{"run", "--rand-seed=" + seed}, src, "")
+				if o1 != o2 || e1 != e2 || c1 != c2 {
+					return &fw.Violation{Sub: "fresh-process", Signature: "seeded-rand-differs", What: "two runs with the same --rand-seed print different random numbers", Input: c08Input{Src: src + "# --rand-seed=" + seed},
+						Expected: fmt.Sprintf("%q", o1), Observed: fmt.Sprintf("%q", o2), NoConfirm: true}
+				}
+			}
+			return nil
+		})
 	}
 	// fresh processes: the uninstrumented binary twice
 	for i, src := range hp {
